@@ -206,11 +206,29 @@ func stressStack(r *hx.Run, f []string) {
 		bases := []reactive.Set[int]{nodes[0].set, nodes[1].set, nodes[2].set}
 		var lines []string
 		bad := ""
+		// structural changes inside the composition: a DerivedSet at the top inherits from one more node (a derived one
+		// or a base set) in some rounds and unsubscribes from it in others, while the writers run
+		var extraUnsub func()
+		top := 3 + len(specs) - 1
+		baseIn := append([]int{}, specs[len(specs)-1].in...)
 		for round := 0; round < rounds && bad == ""; round++ {
 			hot := rng.Range(1, 3)
 			var jobs []func()
 			if conc && round == 0 {
 				jobs = append(jobs, build)
+			} else if specs[len(specs)-1].kind == "dset" && rng.Chance(1, 3) {
+				j := rng.Intn(top)
+				jobs = append(jobs, func() {
+					d := nodes[top].set.(reactive.DerivedSet[int])
+					if extraUnsub == nil {
+						extraUnsub = d.InheritFrom(nodes[j].set)
+						nodes[top].in = append(append([]int{}, baseIn...), j)
+					} else {
+						extraUnsub()
+						extraUnsub = nil
+						nodes[top].in = baseIn
+					}
+				})
 			}
 			for i := range bases {
 				wr, _ := rng.Fork()
